@@ -123,6 +123,12 @@ def check(run: Run) -> None:
 
     check_comprehension_shadow(run, ctx, m, cls, "C05.R6")
 
+    # ---------------- R8: the helper's body is recovered from source by the same scan as the operator's own lambda
+    run.rule("C05.R8", "the source of an inlined helper is recovered under the gates of C03 (rule set of C03 re-evaluated): a neighbouring lambda must never be inlined in its place")
+    from ..report import run_stage
+
+    run_stage(run, "c03")
+
     # ---------------- R7: which function a helper name stands for is decided by the callable's own scopes (shared with C04.R3/R6)
     run.rule("C05.R7", "the helper that is inlined is the one the name denotes for the callable: closure before module globals, in a fresh table")
     from ..report import Relabel
